@@ -383,7 +383,13 @@ class WorkerController:
     def sendcommand(self, name: str, **kwargs: object) -> None:
         """Send a named parametrized command to the other side."""
         self.log(f"sending command {name}(**{kwargs})")
-        self.channel.send((name, kwargs))
+        try:
+            self.channel.send((name, kwargs))
+        except OSError:
+            # The worker is gone (its channel is closed or its pipe broken).
+            # Its end marker makes the receiver thread report it as down, and
+            # whatever was meant for it is recovered when it is removed.
+            self.log(f"could not send {name}: worker is gone")
 
     def notify_inproc(self, eventname: str, **kwargs: object) -> None:
         self.log(f"queuing {eventname}(**{kwargs})")
